@@ -170,9 +170,11 @@ def _probe(d, k):
         c = (k == x)
         c = c.e if isinstance(c, SymBool) else z3.BoolVal(bool(c))
         conds.append(c)
-    conds.append(z3.Not(z3.Or(*conds)) if len(conds) > 1 else z3.Not(conds[0]))
-    i = eng().choose(conds)
-    return keys[i] if i < len(keys) else _ABSENT
+    # 'none of the keys' is explored first: the fallback branch of a lookup is where tables get extended or defaults are
+    # made up, and a depth-first exploration that is cut short should have seen it
+    none = z3.Not(z3.Or(*conds)) if len(conds) > 1 else z3.Not(conds[0])
+    i = eng().choose([none] + conds)
+    return _ABSENT if i == 0 else keys[i - 1]
 
 
 def sx_getitem(obj, key):
